@@ -50,11 +50,14 @@ fn check_pair<K: Kit>(ctx: &Ctx, b: &mut Batch, kit: &K, sp: &K::SP, spec: &Spec
     let scale = l.max(4.0 * coord_scale(spec, fa, fb));
     let tol = len_tol(kit, scale);
     let anti = near_antipodal(spec, fa, fb);
-    let mut out = a.clone();
-    let mut rev = a.clone();
-    let mut dynout = a.clone();
+    // the output state's prior content must not matter: start it from an unrelated state
+    let scratch = kit.unflat(&crate::world::rand_state(&mut crate::util::Sm::new(fa.len() as u64 ^ fb[0].to_bits()), &super::c09::bounded_view(spec)));
+    let mut out = scratch.clone();
+    let mut rev = scratch.clone();
+    let mut dynout = scratch.clone();
     for &t in ts {
         b.evaluations += 1;
+        out = scratch.clone();
         sp.interpolate(&a, &bb, t, &mut out);
         let fo = K::flat(&out);
         let rep = |sig: &str, detail: String| {
